@@ -19,7 +19,8 @@ only for a non-zero fee; fee = balance.checked_mul_floor(CONFIG.take_rate); the 
 that value; epoch.total and epoch.available are the same vector holding the remaining balance, which is also the amount
 of the BankMsg::Send to CONFIG.fee_distributor. Q4: in aggregate_fees every swap message is built only when balance >
 1000 (ordering-domain walk), after a successful route query and simulation, and never for the distribution asset itself.
-Q5: collect messages go to the contracts listed by the configured factories.
+Q5: collect messages go to the contracts listed by the configured factories. Q6: in every pool and vault
+collect_protocol_fees the pending entry goes to CONFIG.fee_collector_addr and is zeroed only where it is transferred.
 """
 ASSUMPTIONS = [
     "conservation across collector / DAO / distributor balances is the composition of Q3 with C09-D3 and bank semantics: not a tool result",
@@ -261,9 +262,20 @@ def check_collect(ctx, model):
         ctx.floor("C10-Q5", "collect_fees_for_contract call sites in %s" % q, n, 2)
 
 
+def check_pool_side(ctx, model):
+    """Q6: what a registered pool or vault does when it receives CollectProtocolFees -- the pending entry is transferred
+    to the configured collector, and it is zeroed only where it is transferred (the rule C07-F3 decides; it is repeated
+    here because a fee erased on the pool side never reaches any epoch)."""
+    from .C07 import check_collect as pool_collect
+    for crate in ("terraswap_pair", "stableswap_3pool"):
+        pool_collect(ctx, model, crate, "%s::commands::collect_protocol_fees" % crate, "%s::state::COLLECTED_PROTOCOL_FEES" % crate, rule="C10-Q6")
+    pool_collect(ctx, model, "vault", "vault::execute::collect_protocol_fee::collect_protocol_fees", "vault::state::COLLECTED_PROTOCOL_FEES", vault=True, rule="C10-Q6")
+
+
 def run(ctx):
     model = ctx.model()
     check_forward(ctx, model)
     check_reply(ctx, model)
     check_aggregate(ctx, model)
     check_collect(ctx, model)
+    check_pool_side(ctx, model)
